@@ -26,7 +26,7 @@ ASSUMPTIONS = [
     "holds only on the inputs driven; nothing is claimed for inputs not generated",
 ]
 REQUIRED = {"all": ["len_lt5", "len_eq5", "len_eq6", "net_negative", "net_zero", "net_positive", "uncharged",
-                    "random_long", "longer_than_1000", "shuffled_objects"]}
+                    "random_long", "longer_than_1000", "shuffled_objects", "salted_objects", "kappa_before_delta"]}
 LMAX = {"quick": 11, "thorough": 13}
 NRANDOM = {"quick": 1500, "thorough": 20000}
 NLONG = {"quick": 6, "thorough": 40}
@@ -80,16 +80,15 @@ def judge(case, rep, S):
         obj = SALT.make_object(S, seq, gen.sub_rng(0, "make", seq), rep)
     else:
         obj = S["SP"](seq)
-    if case["k"] == "seq" and (rep.evaluations % 4 == 0 or len(seq) <= 60 and rep.evaluations % 2 == 0):
-        if len(seq) <= 60:
-            obj.get_kappa()                 # delta-max cached before delta is asked for
-            rep.cnt("kappa_before_delta")
+    salted = case["k"] == "seq" and (rep.evaluations % 4 == 0 or len(seq) <= 60 and rep.evaluations % 2 == 0)
+    if salted and len(seq) <= 60:
+        obj.get_kappa()                 # delta-max cached before delta is asked for
+        rep.cnt("kappa_before_delta")
     if case.get("kappa_first"):
         obj.get_kappa()
         obj.get_deltaMax()
         rep.cnt("kappa_before_delta")
-    if False:
-        pass
+    if salted:
         SALT.salt(S, obj, seq, gen.sub_rng(0, "salt", seq), rep, cheap=len(seq) > 150)
     got = obj.get_delta()
     again = obj.get_delta()
